@@ -267,6 +267,15 @@ Proof. exact frr_mgr_latest_applied_inj. Qed.
    "failed attempts are retried" / "at any rate" with durations: the retry of an attempt that failed at [now] is
    enabled from [now + rt] on and not before, WHATEVER is submitted or re-requested in between (no stream of
    submissions pushes it back) ... *)
+(* READING for the implementation: [tstep] describes the CURRENT code (nothing re-arms a pending timer).  What C19
+   needs from these theorems is the UPPER bound: the pending attempt is enabled at the latest from [now + rt]
+   (resp. [now + iv]) however many submissions arrive.  C19 does not forbid an implementation that retries EARLIER
+   than the failure interval (e.g. moves the attempt to one debounce interval after a genuinely new configuration);
+   the only lower bound the property contains is coalescing: with nothing pending, the reload owed to a burst starts
+   no earlier than one debounce interval after the burst's first submission (the "not before" clause of
+   C19_debounce_not_postponed).  Accordingly the trace validation (harness oracles) accepts every deadline <= the
+   model's that respects coalescing: deb-starved-by-submissions / deb-no-retry check the upper bounds,
+   deb-window-cut-short the coalescing bound after a SUCCESSFUL call; no lower bound is imposed on a retry. *)
 Theorem C19_retry_not_starved_by_submissions : forall iv rt s now s1 subs s2,
   tstep iv rt s (now, Fire false) = Some s1 -> no_fire (map snd subs) = true -> trun iv rt s1 subs = Some s2 ->
   t_deadline s2 = Some (now + rt)%N
